@@ -174,7 +174,9 @@ pub fn generate(stream: &str, seed: u64, n: usize, emit: &mut dyn FnMut(String))
 pub fn run_rt(line: &str) -> Result<String, String> {
 	let mut r = R::new(line);
 	let _ = r.tok()?;
-	let allow_slow = r.n()? != 0;
+	// bit 0: allow_slow_sequence_to_bytes; bit 1: the presentation is type-directed (it may not
+	// determine a branch, in which case an error is a legitimate outcome)
+	let allow_slow = r.n()? & 1 != 0;
 	let raw = r.schema()?;
 	let v = r.sv()?;
 	let schema = match build::to_schema_mut(&raw).freeze() {
@@ -199,6 +201,95 @@ pub fn run_rt(line: &str) -> Result<String, String> {
 			format!("ok {} | {}", hex(&bytes), back)
 		}
 	})
+}
+
+/// Unions with several candidate branches for one kind of value, in an order chosen so that the
+/// priority table (not the position) decides: e.g. `[float-ish worst, best, second best]`.
+fn priority_union(rng: &mut rand::rngs::StdRng) -> (RawSchema, SV) {
+	use rand::seq::SliceRandom;
+	let n = |reg: Reg| RawNode { reg, logical: None };
+	let l = |reg: Reg, lg: Logical| RawNode { reg, logical: Some(lg) };
+	let families: Vec<(Vec<RawNode>, SV)> = vec![
+		// f64: double 0, float 1, decimal 2
+		(
+			vec![l(Reg::Bytes, Logical::Decimal(2, 20)), n(Reg::Double), n(Reg::Float)],
+			SV::F64(*[0x3fb999999999999au64, 0x7ff8000000000001, 0x3ff0000000000000].choose(rng).unwrap()),
+		),
+		// i64: long 0, int 1, decimal 5, enum 10
+		(
+			vec![n(Reg::Enum("E".into(), vec!["A".into(), "B".into()])), n(Reg::Long), n(Reg::Int), l(Reg::Bytes, Logical::Decimal(0, 20))],
+			SV::Int(IntTy::I64, crate::proto::BigI::Pos(1)),
+		),
+		// i32: int 0, long 1
+		(vec![l(Reg::Bytes, Logical::Decimal(0, 20)), n(Reg::Int), n(Reg::Long)], SV::Int(IntTy::I32, crate::proto::BigI::Pos(7))),
+		// str: string 0, enum 5, bytes 10, fixed 15
+		(
+			vec![n(Reg::Fixed("F".into(), 1)), n(Reg::String), n(Reg::Enum("E".into(), vec!["A".into()])), n(Reg::Bytes)],
+			SV::Str("A".into()),
+		),
+		// bytes: bytes 0 / fixed 0 conflict is avoided: bytes 0, string 1, duration 5
+		(vec![l(Reg::Fixed("D".into(), 12), Logical::Duration), n(Reg::Bytes), n(Reg::String)], SV::Bytes(vec![0x41; 12])),
+		// unit variant: enum 0, string 1, null 2, bytes 10
+		(
+			vec![n(Reg::Bytes), n(Reg::Enum("E".into(), vec!["A".into(), "B".into()])), n(Reg::String), n(Reg::Null)],
+			SV::UnitVariant("E".into(), 1, "B".into()),
+		),
+		// seq: array 0, bytes 2
+		(vec![n(Reg::Bytes), n(Reg::Array(0)), n(Reg::Null)], SV::Seq(Some(0), vec![])),
+	];
+	let (mut branches, v) = families.choose(rng).unwrap().clone();
+	// rotate / permute the branches: every order must give the same (best) branch
+	branches.shuffle(rng);
+	let mut schema = vec![RawNode { reg: Reg::Union((1..=branches.len()).collect()), logical: None }];
+	for b in branches.into_iter() {
+		schema.push(b);
+	}
+	// fix arrays: items = a fresh null node
+	let null_idx = schema.len();
+	let mut needs_null = false;
+	for node in schema.iter_mut().skip(1) {
+		if let Reg::Array(k) = &mut node.reg {
+			*k = null_idx;
+			needs_null = true;
+		}
+	}
+	if needs_null {
+		schema.push(RawNode { reg: Reg::Null, logical: None });
+	}
+	(schema, v)
+}
+
+pub fn generate_rt_td(seed: u64, n: usize, emit: &mut dyn FnMut(String)) {
+	let mut rng = rng_from(seed, "rt-td");
+	for i in 0..n {
+		if i % 3 == 0 {
+			let (schema, v) = priority_union(&mut rng);
+			let mut w = W::default();
+			w.t("rt").n(2).schema(&schema).sv(&v);
+			ext_entries(&mut w, &schema, &v);
+			emit(w.s);
+			continue;
+		}
+		let mut sg = SchemaGen::new(&mut rng, 10, false);
+		sg.decimal_limits = true;
+		let schema = sg.gen_root();
+		let allow_slow = rng.gen_bool(0.7);
+		let mut vg = ValueGen {
+			rng: &mut rng,
+			schema: &schema,
+			allow_slow,
+			exotic: 0.3,
+			invalid: 0.0,
+			by_name_only: false,
+			maybe_invalid: false,
+			no_decimal_oracle: false,
+		};
+		let v = vg.gen(0, 0);
+		let mut w = W::default();
+		w.t("rt").n(2 + allow_slow as usize).schema(&schema).sv(&v);
+		ext_entries(&mut w, &schema, &v);
+		emit(w.s);
+	}
 }
 
 pub fn generate_rt(seed: u64, n: usize, emit: &mut dyn FnMut(String)) {
